@@ -108,6 +108,6 @@ def session(rng, cuts):
 
 def gen(rng, tier):
     ops = []
-    for _ in range(budget(tier, 6, 300)):
+    for _ in range(budget(tier, 6, 120)):
         ops += session(rng, budget(tier, 14, 60))
     return ops
